@@ -137,7 +137,13 @@ def parse_float_literal(value_node: ValueNode, _variables: Any = None) -> float:
             "Float cannot represent non numeric value: " + print_ast(value_node),
             value_node,
         )
-    return float(value_node.value)
+    num = float(value_node.value)
+    if not isfinite(num):
+        raise GraphQLError(
+            "Float cannot represent non numeric value: " + print_ast(value_node),
+            value_node,
+        )
+    return num
 
 
 def float_value_to_literal(value: Any) -> ConstValueNode | None:
